@@ -172,6 +172,14 @@ Val(v) == R("ok", NoObj, 0, v)         \* a plain value is returned
 Err(e) == R(e, NoObj, 0, <<>>)
 New(k, cls, n, s) == Obj(k, cls, n, s, 0)
 
+(* resolve() of an absolute padding and to_exact() of an exact padding are documented to       *)
+(* return "an instance with equivalent absolute dimensions" / "an equivalent exact padding":   *)
+(* the operand itself (what the implementation does, Same) or an equal new instance (Copy) -   *)
+(* both are the documented behaviour.  For to_exact the new instance may be a plain            *)
+(* ExactPadding even when the operand is an instance of a subclass.                            *)
+CopyOf(o, cls) == Made(New(o.k, cls, o.n, o.s))
+CopyClasses(o, name) == IF name = "to_exact" THEN {o.cls, "ExactPadding"} ELSE {o.cls}
+
 \* render size argument: the object in slot j, else the literal <<w, h>> in n
 RS(S, op) == IF op.j > 0 THEN P!Sz(S[op.j].n[1], S[op.j].n[2]) ELSE P!Sz(op.n[1], op.n[2])
 
@@ -325,7 +333,8 @@ WFOp(S, op) ==
 (* of every live object (by attribute, by index, by unpacking), its class, its         *)
 (* `relative` flag, identity (id) and the == / hash relations between all of them.     *)
 RelFlag(o) == IF o.k # "aligned" THEN 0 - 1 ELSE IF Rel(o) THEN 1 ELSE 0
-ObsObj(o) == [k |-> o.k, cls |-> o.cls, n |-> o.n, s |-> o.s, id |-> o.id, rel |-> RelFlag(o)]
+ObsObj(o) == [k |-> o.k, cls |-> o.cls, n |-> o.n, s |-> o.s, id |-> o.id, rel |-> RelFlag(o),
+              tup |-> IF IsTuple(o) THEN o.n ELSE <<>>]      \* list(obj) of the tuple types
 Obs(S) == [o |-> [i \in DOMAIN S |-> ObsObj(S[i])],
            eq |-> [i \in DOMAIN S |-> [j \in DOMAIN S |-> Eq3(S[i], S[j])]]]
 =============================================================================
